@@ -4,7 +4,7 @@ from fractions import Fraction
 import z3
 
 from .values import (Poly, LinComb, BlockVec, SeqVal, Ref, HeapObj, Closure, UFunc, ModuleRef, BoundMethod, Opaque,
-                     ExcVal, fresh_name, is_z3, to_z3, to_real, to_bool, to_poly)
+                     ExcVal, ConcVec, TabVal, fresh_name, is_z3, to_z3, to_real, to_bool, to_poly)
 
 
 class Havoc(Exception):
@@ -43,6 +43,8 @@ def _scalar(v):
 
 
 def neg(v):
+    if isinstance(v, ConcVec):
+        return ConcVec(neg(x) for x in v.items)
     if _num(v):
         return -v
     if is_z3(v):
@@ -92,6 +94,19 @@ def binop(ex, op, a, b, st, ctx):
         return Opaque("op")
     if isinstance(a, InfVal) or isinstance(b, InfVal):
         raise Havoc("arithmetic on inf")
+    # ---------------- concrete-length vectors (stage arrays, table rows): element-wise, scalars broadcast
+    if isinstance(a, Ref) and st.obj(a).kind == "stages":
+        a = ConcVec(st.obj(a).items)
+    if isinstance(b, Ref) and st.obj(b).kind == "stages":
+        b = ConcVec(st.obj(b).items)
+    if isinstance(a, ConcVec) or isinstance(b, ConcVec):
+        if isinstance(a, ConcVec) and isinstance(b, ConcVec):
+            if len(a) != len(b):
+                raise Havoc("vector length mismatch %d vs %d" % (len(a), len(b)))
+            return ConcVec(binop(ex, op, x, y, st, ctx) for x, y in zip(a.items, b.items))
+        if isinstance(a, ConcVec):
+            return ConcVec(binop(ex, op, x, b, st, ctx) for x in a.items)
+        return ConcVec(binop(ex, op, a, y, st, ctx) for y in b.items)
     # ---------------- strings / sequences
     if isinstance(a, str) or isinstance(b, str):
         return "<str>"
@@ -288,6 +303,12 @@ def compare(ex, op, a, b, st, ctx):
         return r if op == "In" else not r
     if isinstance(a, InfVal) or isinstance(b, InfVal):
         return _cmp_inf(op, a, b)
+    if isinstance(a, ConcVec) or isinstance(b, ConcVec):
+        if isinstance(a, ConcVec) and isinstance(b, ConcVec):
+            return ConcVec(compare(ex, op, x, y, st, ctx) for x, y in zip(a.items, b.items))
+        if isinstance(a, ConcVec):
+            return ConcVec(compare(ex, op, x, b, st, ctx) for x in a.items)
+        return ConcVec(compare(ex, op, a, y, st, ctx) for y in b.items)
     if isinstance(a, Opaque) or isinstance(b, Opaque):
         if op in ("Eq", "NotEq") and (a is None or b is None or isinstance(a, str) or isinstance(b, str)):
             return op == "NotEq"
@@ -405,9 +426,44 @@ def _norm_index(ex, seq, idx, st, ctx, node, what):
     return z3.If(si < 0, si + n, si)
 
 
+def _vec_index(items, idx):
+    if isinstance(idx, ConcVec):            # boolean mask
+        if len(idx) != len(items) or not all(isinstance(m, bool) for m in idx.items):
+            raise Havoc("mask index")
+        return ConcVec(x for x, m in zip(items, idx.items) if m)
+    if isinstance(idx, int):
+        return items[idx]
+    if isinstance(idx, slice):
+        return ConcVec(items[idx])
+    raise Havoc("vector index %r" % (idx,))
+
+
 def subscript(ex, v, idx, st, ctx, node=None):
     if isinstance(v, Opaque):
         return Opaque("sub")
+    if isinstance(v, TabVal):
+        if isinstance(idx, tuple) and len(idx) == 2:
+            r, c = idx
+            if isinstance(r, int):
+                return _vec_index(v.rows[r], c)
+            if isinstance(r, slice) and isinstance(c, int):
+                return ConcVec(row[c] for row in v.rows[r])
+            if isinstance(r, slice) and isinstance(c, slice):
+                return TabVal([row[c] for row in v.rows[r]])
+        if isinstance(idx, int):
+            return ConcVec(v.rows[idx])
+        raise Havoc("table index %r" % (idx,))
+    if isinstance(v, ConcVec):
+        if isinstance(idx, tuple) and len(idx) == 2 and idx[0] is Ellipsis:
+            idx = idx[1]
+        return _vec_index(v.items, idx)
+    if isinstance(v, Ref) and st.obj(v).kind == "stages":
+        items = tuple(st.obj(v).items)
+        if isinstance(idx, tuple) and len(idx) == 2 and idx[0] is Ellipsis:
+            return _vec_index(items, idx[1])
+        if idx is Ellipsis:
+            return ConcVec(items)
+        raise Havoc("stage-array index %r" % (idx,))
     if isinstance(v, tuple) or isinstance(v, PyIter):
         items = v if isinstance(v, tuple) else tuple(v.items)
         if isinstance(idx, (int, slice)):
@@ -478,6 +534,14 @@ def store(ex, base, idx, v, st, ctx, node=None):
     """Returns IN_PLACE (heap mutated) or the new value to assign back to the base expression."""
     if isinstance(base, Opaque):
         return Opaque("store")
+    if isinstance(base, Ref) and st.obj(base).kind == "stages":
+        o = st.obj(base)
+        if isinstance(idx, tuple) and len(idx) == 2 and idx[0] is Ellipsis and isinstance(idx[1], int):
+            o.items[idx[1]] = v
+            log = st.ghost.setdefault("stage_writes", [])
+            log.append((base.oid, idx[1]))
+            return IN_PLACE
+        raise Havoc("stage-array store %r" % (idx,))
     if isinstance(base, Ref):
         o = st.obj(base)
         if o.kind == "list":
@@ -683,6 +747,8 @@ def _zeros_like(ex, st, ctx, args, kwargs):
 @reg("D.ar_numpy.ones_like")
 def _ones_like(ex, st, ctx, args, kwargs):
     v = args[0]
+    if isinstance(v, ConcVec):
+        return ConcVec(True if isinstance(x, bool) else 1 for x in v.items)
     if _scalar(v):
         return _zeros_like_val(kwargs.get("dtype"), one=True)
     raise Havoc("ones_like")
@@ -699,6 +765,8 @@ def _np_any(ex, st, ctx, args, kwargs):
     v = args[0]
     if isinstance(v, bool):
         return v
+    if isinstance(v, ConcVec) and all(isinstance(x, bool) for x in v.items):
+        return any(v.items)
     if is_z3(v):
         if ctx.lifted:
             # element-wise lifting: this element, or any other element of the vector
@@ -714,6 +782,8 @@ def _np_all(ex, st, ctx, args, kwargs):
     v = args[0]
     if isinstance(v, bool):
         return v
+    if isinstance(v, ConcVec) and all(isinstance(x, bool) for x in v.items):
+        return all(v.items)
     if is_z3(v):
         if ctx.lifted:
             return z3.And(to_bool(v), z3.Bool(fresh_name("all_other")))
@@ -844,6 +914,10 @@ def _len(ex, st, ctx, args, kwargs):
 @reg("D.ar_numpy.shape", "numpy.shape")
 def _shape(ex, st, ctx, args, kwargs):
     v = args[0]
+    if isinstance(v, TabVal):
+        return v.shape
+    if isinstance(v, ConcVec):
+        return (len(v),)
     if _scalar(v) or isinstance(v, (LinComb, BlockVec, Poly)):
         return ()
     if isinstance(v, SeqVal):
@@ -1055,6 +1129,15 @@ def _norm(ex, st, ctx, args, kwargs):
 @reg("D.ar_numpy.sum")
 def _sum(ex, st, ctx, args, kwargs):
     v = args[0]
+    if isinstance(v, Ref) and st.obj(v).kind == "stages":
+        v = ConcVec(st.obj(v).items)
+    if isinstance(v, ConcVec):
+        if kwargs.get("axis", -1) != -1:
+            raise Havoc("sum over a non-stage axis")
+        r = 0
+        for x in v.items:
+            r = binop(ex, "Add", r, x, st, ctx)
+        return r
     if ctx.lifted:
         raise Havoc("reduction in lifted function")
     if _scalar(v) or isinstance(v, (LinComb, BlockVec)):
@@ -1082,6 +1165,9 @@ def _stack(ex, st, ctx, args, kwargs):
     if hook:
         return hook(ex, st, ctx, args, kwargs)
     v = args[0]
+    if isinstance(v, Ref) and st.obj(v).kind == "list" and st.obj(v).items and \
+            all(isinstance(x, (LinComb, BlockVec)) for x in st.obj(v).items) and kwargs.get("axis") == -1:
+        return ConcVec(st.obj(v).items)       # stack of state-shaped values along a new last (stage) axis
     if isinstance(v, Ref) and st.obj(v).kind == "list":
         items = st.obj(v).items
         if len(items) == 1 and ctx.lifted:
